@@ -82,6 +82,7 @@ class HandlerPolicy(Policy):
     loop_unroll = 2
     max_cfgs = 50000
     emit_setitem = True
+    emit_getitem = True
 
     def __init__(self, program: Program, rel="eval.py", raise_at_eval=False, raise_at_call=False, stmt_markers=MARKERS,
                  opaque_methods=("call_func", "log_exception", "get_names", "ast_attribute_collapse", "loopvar_scope_save", "loopvar_scope_restore")):
